@@ -56,6 +56,17 @@ CLAIMED["C11"] = dict(
          "dump_results storage, random 3-band models (labelled bounded, not counted as proved).",
     note=TB + "; glob.glob external contract: matching paths in arbitrary order; np.save/np.load and pickle value round trip assumed")
 
+CLAIMED["C19"] = dict(
+    text="EIG/AMN/MMN.to_w90_file (real text) executed on symbolic data -- every stored number a distinct symbol, a formatted symbol a "
+         "token -- with a capturing file: the writers are total and the token stream equals the Wannier90 layout consumed by the matching "
+         "reader (index order, 1-based indices, header counts, m-outer/n-inner transposition of mmn, neighbours and G taken from the "
+         "b-vector object), per shape (three shapes per file type). dic_to_keydic/keydic_to_dic (real text): round trip for integer keys "
+         "0..120 in the presence of the other saved tags, keys sharing a prefix are not swallowed, class tags read from the sources are "
+         "prefix-free. The reader side and the binary form are carried by a bounded stand-in: real writer -> real file -> real reader for "
+         "EIG, AMN, MMN (with a real BKVectors of a 2x2x2 mesh), and npz save/load of each, compared with equals() and exactly. "
+         "Not covered: WannierData.to_npz/from_npz container wiring.",
+    note=TB + "; text model: a formatted number is one whitespace-free token that parses back to the number at printed precision; np.loadtxt / np.savez value round trip; multiprocessing.Pool.map == map")
+
 NOT_APPLICABLE = {
     "C20": "real-space symmetrisation is a data-dependent floating-point orbit search over irrep objects; its postcondition is only statable through an eigen-solver, no discrete/algebraic kernel is left once externals are abstracted (DESIGN section 7)",
     "C21": "rotation matrices are produced inside sympy (polynomial expansion + evalf); orthogonality/composition live in that CAS computation, outside any contract this engine can generate VCs for (DESIGN section 7)",
